@@ -1283,7 +1283,12 @@ class Interp(object):
         args = [self.operand(fr, a) for a in argops]
         if self.trace_calls is not None:
             self.trace_calls.append((fr.body['d'], d))
-        fn = self.leaf.get(d)
+        fn = None
+        xl = self.opts.get('extra_leaf')
+        if xl is not None:
+            fn = xl.get(d)
+        if fn is None:
+            fn = self.leaf.get(d)
         if fn is not None:
             res = fn(self, fr, callee, args, dest[2], argops, line)
             if res is DIVERGE:
